@@ -584,6 +584,12 @@ func (b gsiBlock) bytes() (o []byte) {
 
 // parseDurationSTL parses a STL duration
 func parseDurationSTL(i string, framerate int) (d time.Duration, err error) {
+	// A timecode is made of 8 digits
+	if len(i) < 8 {
+		err = fmt.Errorf("astisub: invalid timecode length %d for %s", len(i), i)
+		return
+	}
+
 	// Parse hours
 	var hours, hoursString = 0, i[0:2]
 	if hours, err = strconv.Atoi(hoursString); err != nil {
